@@ -85,9 +85,18 @@ func calibrateLimits() {
 }
 
 func init() {
-	if os.Getenv("VERIF_WORKER") == "" {
-		calibrateLimits()
+	// not in the worker process of C06, and not in a process that runs C12:
+	// its cold-start scenario needs the first calls into the library of the
+	// process to be the concurrent ones
+	if os.Getenv("VERIF_WORKER") != "" {
+		return
 	}
+	for _, a := range os.Args {
+		if strings.Contains(a, "TestC12") || strings.Contains(a, "TestReplayC12") {
+			return
+		}
+	}
+	calibrateLimits()
 }
 
 // eqValue compares two field values: same dynamic type, floats by bit
